@@ -22,9 +22,9 @@ func allocFieldStores(al *ssa.Alloc) map[string]ssa.Value {
 
 func init() {
 	register(&Prop{
-		ID:    "C19",
-		Title: "Batch operations equal their item-by-item decomposition",
-		Decided: "the batch is literally its decomposition: (R1) the per-request dispatcher of BatchWriteItem calls the client's own PutItem with exactly {Item ← PutRequest.Item, TableName ← the request's table} and DeleteItem with exactly {Key ← DeleteRequest.Key, TableName ← table} – no condition or other field – choosing the branch by which request pointer is non-nil; (R2) the input validation dominates the first request and both loops visit every table and every request unconditionally; (R3) the error handler never drops a request (shared with C15.R3); (R4) BatchGetItem issues the client's own GetItem per key with {Key ← the key, TableName ← the table}, a key is reported unprocessed only on the non-nil edge of that call's own error, no error is manufactured from an empty result (absent keys are simply omitted), and results are appended under the table they were requested for; (R5) both clients offer the same batch operations.",
+		ID:         "C19",
+		Title:      "Batch operations equal their item-by-item decomposition",
+		Decided:    "the batch is literally its decomposition: (R1) the per-request dispatcher of BatchWriteItem calls the client's own PutItem with exactly {Item ← PutRequest.Item, TableName ← the request's table} and DeleteItem with exactly {Key ← DeleteRequest.Key, TableName ← table} – no condition or other field – choosing the branch by which request pointer is non-nil; (R2) the input validation dominates the first request and both loops visit every table and every request unconditionally; (R3) the error handler never drops a request (shared with C15.R3); (R4) BatchGetItem issues the client's own GetItem per key with {Key ← the key, TableName ← the table}, a key is reported unprocessed only on the non-nil edge of that call's own error, no error is manufactured from an empty result (absent keys are simply omitted), and results are appended under the table they were requested for; (R5) both clients offer the same batch operations.",
 		NotDecided: "equality of the resulting table states (follows from R1–R3 together with C01/C08 for the single-item operations); DynamoDB's 16 MB / 100-key limits; order of responses.",
 		Rules: []RuleDef{
 			{ID: "R1", Desc: "dispatcher builds exactly the single-item request (T-FLOW)", Run: c19R1},
